@@ -671,3 +671,336 @@ func init() {
 		},
 	})
 }
+
+// ---- SM-guards: decisions as boolean functions, compared with the standard's formulas by truth table ----
+
+type boolExpr func(env map[string]bool) (bool, error)
+
+func parseBool(src string) (boolExpr, error) {
+	toks := []string{}
+	for i := 0; i < len(src); {
+		ch := src[i]
+		switch {
+		case ch == ' ':
+			i++
+		case ch == '(' || ch == ')' || ch == '!':
+			toks = append(toks, string(ch))
+			i++
+		case strings.HasPrefix(src[i:], "&&") || strings.HasPrefix(src[i:], "||"):
+			toks = append(toks, src[i:i+2])
+			i += 2
+		default:
+			j := i
+			for j < len(src) && (src[j] == '_' || src[j] >= '0' && src[j] <= '9' || src[j] >= 'a' && src[j] <= 'z' || src[j] >= 'A' && src[j] <= 'Z') {
+				j++
+			}
+			if j == i {
+				return nil, fmt.Errorf("bad character %q", ch)
+			}
+			toks = append(toks, src[i:j])
+			i = j
+		}
+	}
+	pos := 0
+	var or, and, unary func() (boolExpr, error)
+	or = func() (boolExpr, error) {
+		l, err := and()
+		if err != nil {
+			return nil, err
+		}
+		for pos < len(toks) && toks[pos] == "||" {
+			pos++
+			r, err := and()
+			if err != nil {
+				return nil, err
+			}
+			l0 := l
+			l = func(env map[string]bool) (bool, error) {
+				a, err := l0(env)
+				if err != nil {
+					return false, err
+				}
+				b, err := r(env)
+				return a || b, err
+			}
+		}
+		return l, nil
+	}
+	and = func() (boolExpr, error) {
+		l, err := unary()
+		if err != nil {
+			return nil, err
+		}
+		for pos < len(toks) && toks[pos] == "&&" {
+			pos++
+			r, err := unary()
+			if err != nil {
+				return nil, err
+			}
+			l0 := l
+			l = func(env map[string]bool) (bool, error) {
+				a, err := l0(env)
+				if err != nil {
+					return false, err
+				}
+				b, err := r(env)
+				return a && b, err
+			}
+		}
+		return l, nil
+	}
+	unary = func() (boolExpr, error) {
+		if pos >= len(toks) {
+			return nil, fmt.Errorf("unexpected end")
+		}
+		t := toks[pos]
+		pos++
+		switch t {
+		case "!":
+			x, err := unary()
+			if err != nil {
+				return nil, err
+			}
+			return func(env map[string]bool) (bool, error) { v, err := x(env); return !v, err }, nil
+		case "(":
+			x, err := or()
+			if err != nil {
+				return nil, err
+			}
+			if pos >= len(toks) || toks[pos] != ")" {
+				return nil, fmt.Errorf("missing )")
+			}
+			pos++
+			return x, nil
+		case "true":
+			return func(map[string]bool) (bool, error) { return true, nil }, nil
+		case "false":
+			return func(map[string]bool) (bool, error) { return false, nil }, nil
+		}
+		name := t
+		return func(env map[string]bool) (bool, error) {
+			v, ok := env[name]
+			if !ok {
+				return false, fmt.Errorf("atom %s unbound", name)
+			}
+			return v, nil
+		}, nil
+	}
+	e, err := or()
+	if err != nil {
+		return nil, err
+	}
+	if pos != len(toks) {
+		return nil, fmt.Errorf("trailing tokens")
+	}
+	return e, nil
+}
+
+// assumed parses the Assumes list of a path into key -> value (first occurrence wins).
+func assumed(p *smPath) map[string]bool {
+	m := map[string]bool{}
+	for _, a := range p.Assumes {
+		k, v := a, true
+		if strings.HasPrefix(a, "!(") && strings.HasSuffix(a, ")") {
+			k, v = a[2:len(a)-1], false
+		}
+		if _, ok := m[k]; !ok {
+			m[k] = v
+		}
+	}
+	return m
+}
+
+func init() {
+	register(&Rule{
+		Name:  "SM-guards",
+		Doc:   "setter-specific decisions of the state machine (refuse / fail / write), read off the extracted paths as a boolean function of the conditions they evaluate, equal the standard's formula on every assignment of the atoms (truth table; semantic, independent of how the condition is written)",
+		Props: []string{"C05", "C04", "C03"},
+		Floor: 2,
+		Run: func(c *Ctx, s *core.Sink) {
+			m := BuildSM(c)
+			if smProblems(m, s) {
+				return
+			}
+			var spec struct {
+				Guards []struct {
+					ID       string            `json:"id"`
+					Spec     string            `json:"spec"`
+					Contexts []string          `json:"contexts"`
+					States   []string          `json:"states"`
+					RClass   []string          `json:"rclass"`
+					Target   string            `json:"target"`
+					Requires map[string]bool   `json:"requires"`
+					Atoms    map[string]string `json:"atoms"`
+					Refuse   string            `json:"refuse"`
+					Fail     string            `json:"fail"`
+					Props    []string          `json:"props"`
+				} `json:"guards"`
+			}
+			readSpec(c, "guards.json", &spec)
+			for _, g := range spec.Guards {
+				refuse, err1 := parseBool(g.Refuse)
+				fail, err2 := parseBool(g.Fail)
+				if err1 != nil || err2 != nil {
+					s.Unknown("guards/"+g.ID, "-", fmt.Sprintf("spec formula does not parse: %v %v", err1, err2), g.Props...)
+					continue
+				}
+				var names []string
+				byText := map[string]string{}
+				for n, t := range g.Atoms {
+					names = append(names, n)
+					byText[t] = n
+				}
+				sort.Strings(names)
+				for _, cxName := range g.Contexts {
+					key := "guards/" + g.ID + "/" + cxName
+					type cand struct {
+						asg     map[string]bool
+						outcome string
+						pos     string
+					}
+					var cands []cand
+					unknownAtoms := map[string]bool{}
+					for _, p := range m.Paths[cxName] {
+						inState := false
+						for _, st := range g.States {
+							if st == p.State {
+								inState = true
+							}
+						}
+						if p.State == "<prologue>" || !inState {
+							continue
+						}
+						okClass := len(p.RClass) > 0
+						for _, rc := range p.RClass {
+							in := false
+							for _, w := range g.RClass {
+								if w == rc {
+									in = true
+								}
+							}
+							if !in {
+								okClass = false
+							}
+						}
+						if !okClass {
+							continue
+						}
+						as := assumed(p)
+						skip := false
+						for k, v := range g.Requires {
+							if got, ok := as[k]; ok && got != v {
+								skip = true
+							}
+						}
+						if skip {
+							continue
+						}
+						// validation failures under fail-on-validation-error are not decisions of the guard
+						nonFatal := false
+						for _, h := range p.Handlers {
+							if h.Taken == triT && !(h.Site.FailKnown && h.Site.Failure) {
+								nonFatal = true
+							}
+						}
+						if nonFatal {
+							continue
+						}
+						asg := map[string]bool{}
+						for k, v := range as {
+							if n, ok := byText[k]; ok {
+								asg[n] = v
+							} else if _, isReq := g.Requires[k]; !isReq {
+								unknownAtoms[k] = true
+							}
+						}
+						outcome := "write"
+						wrote := false
+						for _, e := range p.Effects {
+							if e.Field == g.Target {
+								wrote = true
+							}
+						}
+						failed := false
+						for _, h := range p.Handlers {
+							if h.Taken == triT && h.Site.FailKnown && h.Site.Failure {
+								failed = true
+							}
+						}
+						switch {
+						case p.Returned && p.RetKind == "fail" && !wrote && !failed:
+							outcome = "write" // the component's own parser was tried and rejected the value
+						case p.Returned && p.RetKind == "fail" && !wrote:
+							outcome = "fail"
+						case p.Returned && !wrote:
+							outcome = "refuse"
+						case !wrote:
+							outcome = "continue"
+						}
+						cands = append(cands, cand{asg, outcome, c.P.Pos(p.RetPos)})
+					}
+					if len(cands) == 0 {
+						s.Unknown(key, "-", "no path of the state machine matches this guard (state / code point class)", g.Props...)
+						continue
+					}
+					// atoms the code evaluates that the formula does not know: only harmless if the outcome never depends on them
+					var bad []string
+					rows, checked := 1<<uint(len(names)), 0
+					for mask := 0; mask < rows; mask++ {
+						env := map[string]bool{}
+						for i, n := range names {
+							env[n] = mask&(1<<uint(i)) != 0
+						}
+						outs := map[string]string{}
+						for _, cd := range cands {
+							ok := true
+							for n, v := range cd.asg {
+								if env[n] != v {
+									ok = false
+								}
+							}
+							if ok {
+								outs[cd.outcome] = cd.pos
+							}
+						}
+						if len(outs) == 0 {
+							continue
+						}
+						checked++
+						wantRefuse, _ := refuse(env)
+						wantFail, _ := fail(env)
+						want := "write"
+						switch {
+						case wantFail:
+							want = "fail"
+						case wantRefuse:
+							want = "refuse"
+						}
+						for o, pos := range outs {
+							if o == "continue" {
+								o = "write" // the state goes on towards writing the component
+							}
+							if o != want && len(bad) < 4 {
+								var parts []string
+								for _, n := range names {
+									parts = append(parts, fmt.Sprintf("%s=%v", g.Atoms[n], env[n]))
+								}
+								bad = append(bad, fmt.Sprintf("with %s the parser would %s (at %s), the standard says %s", strings.Join(parts, ", "), o, pos, want))
+							}
+						}
+					}
+					if len(bad) > 0 {
+						s.Bad(key, "-", strings.Join(bad, "; "), g.Props...)
+						continue
+					}
+					var unk []string
+					for k := range unknownAtoms {
+						unk = append(unk, k)
+					}
+					sort.Strings(unk)
+					s.OK(key, "-", fmt.Sprintf("%d of %d assignments select a path; every decision equals the standard's (%s)%s", checked, rows, g.Spec, map[bool]string{true: "; other conditions evaluated: " + strings.Join(unk, ", "), false: ""}[len(unk) > 0]), g.Props...)
+				}
+			}
+		},
+	})
+}
